@@ -260,14 +260,92 @@ func vc18_step(nn int) {
 	vassert(len(pp.paths) == depth, "stack-restored")
 }
 
+// the same step through expand, including render ... default: a cycle is an
+// error for every kind of reference; only a missing file is forgiven
+func vc18_expand(nn int) {
+	var opened []string
+	// stack of files being expanded: a non-empty duplicate-free prefix-choice of the pool
+	depth := 1 + vsym_choice(3)
+	paths := make([]string, depth)
+	for i := range paths {
+		paths[i] = vpool[i]
+	}
+	trees := map[string]parsedTree{}
+	cachedTree := ast.NewTree("f.html", nil, ast.FormatHTML)
+	cached := vsym_bool()
+	if cached {
+		pt := parsedTree{tree: cachedTree}
+		pt.parent.path = "a.html"
+		pt.parent.node = ast.NewRender(nil, "f.html")
+		trees["f.html"] = pt
+	}
+	exists := vpool[vsym_choice(len(vpool))]
+	pp := &templateExpansion{fsys: vrecFS{&opened, exists}, trees: trees, paths: paths, canExtend: true}
+	name := vsym_string(nn)
+	vassumeASCII(name)
+	vassume(ValidTemplatePath(name))
+	var node ast.Node
+	kind := vsym_choice(4)
+	switch kind {
+	case 0:
+		node = ast.NewExtends(&ast.Position{}, name, ast.FormatHTML)
+	case 1:
+		node = ast.NewImport(&ast.Position{}, nil, name, nil)
+	case 2:
+		node = ast.NewRender(&ast.Position{}, name)
+	case 3:
+		node = ast.NewDefault(&ast.Position{}, ast.NewRender(&ast.Position{}, name), ast.NewBasicLiteral(&ast.Position{}, ast.StringLiteral, "\"x\""))
+	}
+	parent := paths[len(paths)-1]
+	want, werr := rooted(parent, name)
+	err := pp.expand([]ast.Node{node})
+	var tree *ast.Tree
+	// only the rooted name is ever passed to the file system, at most once
+	vassert(len(opened) <= 1, "file-read-at-most-once")
+	if len(opened) == 1 {
+		vassert(werr == nil && opened[0] == want, "only-the-rooted-name-is-opened")
+		vassert(fs.ValidPath(opened[0]) && !vhasDotDotElement(opened[0]), "opened-name-is-a-valid-rooted-path")
+	}
+	if werr != nil {
+		vassert(len(opened) == 0, "reference-outside-the-root-opens-nothing")
+		// a reference that leaves the root is "not found": forgiven only for import and render-default
+		vassert((err == nil) == (kind == 1 || kind == 3), "escaping-reference-fails-as-not-found")
+		return
+	}
+	inStack := false
+	for _, p := range paths {
+		if p == want {
+			inStack = true
+		}
+	}
+	if inStack {
+		_, isCycle := err.(*CycleError)
+		vassert(isCycle && len(opened) == 0 && tree == nil, "cycle-reported-without-opening")
+		vreach("cycle")
+		return
+	}
+	if cached && want == "f.html" {
+		vassert(len(opened) == 0, "cached-file-not-read-again")
+		vreach("cached")
+		return
+	}
+	vassert(len(opened) == 1, "uncached-file-is-read")
+	if want != exists {
+		vassert((err == nil) == (kind == 1 || kind == 3), "missing-file-forgiven-only-for-import-and-default")
+	}
+	vassert(len(pp.paths) == depth, "stack-restored")
+}
+
 func vh_c18_validpath_q()  { vc18_validpath(5) }
 func vh_c18_rooted_q()     { vc18_rooted(3, 5) }
 func vh_c18_cleanpath_q()  { vc18_cleanpath(7) }
 func vh_c18_modulepath_q() { vc18_modulepath(4) }
 func vh_c18_step_q()       { vc18_step(6) }
+func vh_c18_expand_q()     { vc18_expand(5) }
 
 func vh_c18_validpath_t()  { vc18_validpath(7) }
 func vh_c18_rooted_t()     { vc18_rooted(5, 7) }
 func vh_c18_cleanpath_t()  { vc18_cleanpath(9) }
 func vh_c18_modulepath_t() { vc18_modulepath(6) }
 func vh_c18_step_t()       { vc18_step(8) }
+func vh_c18_expand_t()     { vc18_expand(7) }
